@@ -164,3 +164,72 @@ package nutsdb
 //@        len(bucketMeta.start) == bucketMeta.startSize && len(bucketMeta.end) == bucketMeta.endSize
 //@   modifies nothing
 //@   safety[C20,C21] panics
+
+// ---------------------------------------------------------------------------
+// C22: the index-mode compatibility check. dirHasDat / dirHasBpt are ghost facts about the
+// directory, defined by what ioutil.ReadDir lists.
+//@ spec func fname(f os.FileInfo) string
+//@ spec func pathBase(s string) string
+//@ spec func pathExt(s string) string
+//@ spec func dirHasDat(dir string) bool
+//@ spec func dirHasBpt(dir string) bool
+//@ spec func isDatName(n string) bool = pathExt(pathBase(n)) == DataSuffix
+//@ spec func dirListable(dir string) bool
+//@ spec func modeMismatch(mode EntryIdxMode, dir string) bool = (mode != HintBPTSparseIdxMode && dirHasDat(dir) && dirHasBpt(dir)) || (mode == HintBPTSparseIdxMode && dirHasDat(dir) && !dirHasBpt(dir))
+
+//@ extern io/fs.FileInfo.Name (f) (s)
+//@   ensures s == fname(f)
+//@   modifies nothing
+//@   pure
+//@ extern path.Base (p) (s)
+//@   ensures s == pathBase(p)
+//@   modifies nothing
+//@   pure
+//@ extern path.Ext (p) (s)
+//@   ensures s == pathExt(p)
+//@   modifies nothing
+//@   pure
+//@ extern io/ioutil.ReadDir (dirname) (files, err)
+//@   ensures err == nil ==> (forall k int :: 0 <= k && k < len(files) ==> !isnil(files[k]))
+//@   ensures err != nil ==> !dirListable(dirname)
+//@   ensures err == nil ==> (forall k int :: 0 <= k && k < len(files) && isDatName(fname(files[k])) ==> dirHasDat(dirname))
+//@   ensures err == nil ==> ((forall k int :: 0 <= k && k < len(files) ==> !isDatName(fname(files[k]))) ==> !dirHasDat(dirname))
+//@   ensures err == nil ==> (forall k int :: 0 <= k && k < len(files) && fname(files[k]) == bptDir ==> dirHasBpt(dirname))
+//@   ensures err == nil ==> ((forall k int :: 0 <= k && k < len(files) ==> fname(files[k]) != bptDir) ==> !dirHasBpt(dirname))
+//@   modifies nothing
+
+//@ func DB.checkEntryIdxMode
+//@   requires db != nil
+//@   ensures[C22] result == nil ==> !modeMismatch(db.opt.EntryIdxMode, db.opt.Dir)
+//@   ensures[C22] result != nil && dirListable(db.opt.Dir) && db.opt.EntryIdxMode != HintBPTSparseIdxMode ==> dirHasDat(db.opt.Dir) && dirHasBpt(db.opt.Dir)
+//@   ensures[C22] result != nil && dirListable(db.opt.Dir) && db.opt.EntryIdxMode == HintBPTSparseIdxMode ==> dirHasDat(db.opt.Dir)
+//@   ensures[C22] result != nil && dirListable(db.opt.Dir) && db.opt.EntryIdxMode == HintBPTSparseIdxMode ==> !dirHasBpt(db.opt.Dir)
+//@   modifies nothing
+//@   safety[C20,C22] panics
+//@   loops 1
+//@   loop 1: invariant -1 <= rangeindex && rangeindex < len(files) && db == old(db)
+//@   loop 1: invariant hasDataFlag ==> dirHasDat(db.opt.Dir)
+//@   loop 1: invariant hasBptDirFlag ==> dirHasBpt(db.opt.Dir)
+//@   loop 1: invariant !hasDataFlag ==> (forall k int :: 0 <= k && k <= rangeindex ==> !isDatName(fname(files[k])))
+//@   loop 1: invariant !hasBptDirFlag ==> (forall k int :: 0 <= k && k <= rangeindex ==> fname(files[k]) != bptDir)
+
+// Open: nothing in the directory is touched between the (idempotent) MkdirAll of the root and a refusal.
+//@ spec ghost fsMut int
+//@ extern github.com/xujiajun/utils/filesystem.PathIsExist (path) (ok)
+//@   modifies nothing
+//@   pure
+//@ extern os.MkdirAll (path, perm) (err)
+//@   ensures fsMut == old(fsMut) + 1
+//@   modifies fsMut
+//@ func DB.buildIndexes
+//@   assumed replays every segment; reads and (sparse mode) writes index files; not verified as a whole
+//@   ensures fsMut >= old(fsMut)
+//@   modifies everything
+//@ func NewTree
+//@   ensures fresh(result)
+//@   modifies nothing
+//@ func Open
+//@   ensures[C22] result1 == nil ==> !modeMismatch(opt.EntryIdxMode, opt.Dir)
+//@   ensures[C22] modeMismatch(opt.EntryIdxMode, opt.Dir) && dirListable(opt.Dir) ==> result1 != nil && result0 == nil && fsMut <= old(fsMut) + 1
+//@   modifies everything
+//@   safety[C20,C22] panics
